@@ -11,6 +11,7 @@ import (
 	"os"
 	"os/exec"
 	"path/filepath"
+	"sort"
 	"strconv"
 	"strings"
 	"testing"
@@ -511,7 +512,47 @@ func c20Structure(rt *rapid.T, target int) []byte {
 			return []byte(b.String())
 		}
 	case c20JSONRule:
-		switch rapid.IntRange(0, 3).Draw(rt, "struct_kind") {
+		switch rapid.IntRange(0, 5).Draw(rt, "struct_kind") {
+		case 4:
+			// a null where a value is expected
+			return []byte(rapid.SampledFrom([]string{`[null]`, `null`, `[{"name":"A","when":"true","then":["F.I64 = 1"]},null]`, `{"name":null,"when":null,"then":null}`,
+				`{"name":"R","when":{"eq":null},"then":[null]}`, `{"name":"R","when":{"and":[null,null]},"then":[{"set":null}]}`, `[[null]]`, `{"name":"R","when":{"eq":[null,{"const":null}]},"then":[{"call":[null]}]}`}).Draw(rt, "null_doc"))
+		case 5:
+			// a valid rule in which one value (drawn) is replaced by null
+			var doc interface{}
+			if json.Unmarshal([]byte(`[{"name":"R","desc":"d","salience":3,"when":{"and":[{"eq":[{"obj":"F.B"},{"const":true}]},{"lt":["F.I64",10]}]},"then":[{"set":["F.I64",{"plus":["F.I64",1]}]},{"call":["Log",{"const":"x"}]},"F.I64 = 2"]}]`), &doc) == nil {
+				target := rapid.IntRange(0, 30).Draw(rt, "null_at")
+				count := 0
+				var walk func(x interface{}) interface{}
+				walk = func(x interface{}) interface{} {
+					if count == target {
+						count++
+						return nil
+					}
+					count++
+					switch v := x.(type) {
+					case []interface{}:
+						for i := range v {
+							v[i] = walk(v[i])
+						}
+					case map[string]interface{}:
+						keys := make([]string, 0, len(v))
+						for k := range v {
+							keys = append(keys, k)
+						}
+						sort.Strings(keys)
+						for _, k := range keys {
+							v[k] = walk(v[k])
+						}
+					}
+					return x
+				}
+				doc = walk(doc)
+				if b, err := json.Marshal(doc); err == nil {
+					return b
+				}
+			}
+			return []byte(`[null]`)
 		case 0:
 			s := `{"obj":"F.B"}`
 			for i := 0; i < n; i++ {
